@@ -7,7 +7,7 @@ E? vs (E,), if-then-else vs (?(C) A, !(C) B), ?(E) vs ([E] != []), infix vs the 
 at a random applicable position, and compiled with and without tree::simplify; results
 must be identical (sequences where the rewrite cannot change evaluation order,
 multisets otherwise) and the compile verdict must be the same."""
-import json, random
+import json, os, random
 from vf import common, zast, zgen, zmodel as M, zcmp, zcheck
 
 DIRS = {"s": ("cat", []), "d": ("word", "value"), "x": ("cat", [("word", "value"), ("word", "hex")]),
@@ -194,11 +194,30 @@ RAW_CASES = [(b"a\\nb", 'r"a\\nb"'), (b"\\x41", 'r"\\x41"'), (b"\\101", 'r"\\101
              (b"\\t\\\\", 'r"\\t\\\\"'), (b"plain", 'r"plain"'), (b"a\\nb\n", 'r"a\\nb"\\ "\\n"'), (b"\n\\n", '"\\n"\\ r"\\n"')]
 
 
-def job_raw(_):
+def split_cases(rng, n):
+    """Literals split into 2-4 segments, each cooked or raw, with every kind of gap between them (none, blank, tab, newline, several)."""
+    raw_tokens = [("a", b"a"), ("b", b"b"), (" ", b" "), ("\\n", b"\\n"), ("\\x41", b"\\x41"), ('\\"', b'\\"'), ("\\t", b"\\t"), ("(", b"("), ("]", b"]"), ("\\101", b"\\101"), ("\\\\", b"\\\\")]
+    cooked_tokens = [("a", b"a"), ("c", b"c"), (" ", b" "), ("\\n", b"\n"), ("\\x41", b"A"), ('\\"', b'"'), ("\\t", b"\t"), (")", b")"), ("[", b"["), ("\\101", b"A"), ("\\\\", b"\\"), ("%%", b"%")]
+    out = []
+    for _ in range(n):
+        segs, want = [], b""
+        for k in range(rng.randint(2, 4)):
+            israw = rng.random() < 0.5
+            toks = [rng.choice(raw_tokens if israw else cooked_tokens) for _ in range(rng.randint(0, 4))]
+            segs.append(("r" if israw else "") + '"' + "".join(t for t, _ in toks) + '"')
+            want += b"".join(b for _, b in toks)
+        text = segs[0]
+        for sg in segs[1:]:
+            text += "\\" + rng.choice(["", " ", "\t", "\n", " \n ", "\n\n", "  "]) + sg
+        out.append((want, text))
+    return out
+
+
+def job_raw(seed):
     """Raw strings: r"..." leaves escape sequences intact (compared with the spelled-out normal literal)."""
     d = common.get_driver()
     out = {"raw": 0, "bad": []}
-    for want, rawtext in RAW_CASES:
+    for want, rawtext in RAW_CASES + split_cases(random.Random(seed), 400):
         normal = zast.text(("str", [want]))
         r1, r2 = d.run(normal), d.run(rawtext)
         out["raw"] += 1
@@ -210,6 +229,34 @@ def job_raw(_):
     return out
 
 
+def job_dir_dwarf(path):
+    """The directives and their documented expansions on values that are not constants: attributes (whose `value` is a number, a
+    string, a DIE, ...), DIEs, units.  %d = %( value %), %x = %( value hex %), %o = %( value oct %), %b = %( value bin %), %s = %( %)."""
+    d = common.get_driver()
+    out = {"dir_dwarf": 0, "bad": []}
+    inp = "d:" + common.hx(path)
+    exp = {"s": "%( %)", "d": "%( value %)", "x": "%( value hex %)", "o": "%( value oct %)", "b": "%( value bin %)"}
+    producers = ["entry attribute", "entry ?AT_byte_size attribute ?AT_byte_size", "entry ?AT_decl_line attribute ?AT_decl_line", "entry ?AT_name attribute ?AT_name",
+                 "entry ?AT_type attribute ?AT_type", "entry ?AT_encoding attribute ?AT_encoding", "entry ?AT_const_value attribute ?AT_const_value",
+                 "entry ?AT_upper_bound attribute ?AT_upper_bound", "entry", "unit", "entry offset", "entry label", "entry ?AT_byte_size @AT_byte_size"]
+    for prod in producers:
+        for dch, ex in exp.items():
+            a = '%s "<%%%s>"' % (prod, dch)
+            b = '%s "<%s>"' % (prod, ex)
+            try:
+                ra, rb = d.run(a, inp=inp, fuel=0, max=100000, timeout=120), d.run(b, inp=inp, fuel=0, max=100000, timeout=120)
+                out["dir_dwarf"] += 1
+                w = zcheck.same_outcome(ra, rb, ordered=True)
+                if w is None:
+                    continue
+                if w or ra["stderr"] != rb["stderr"]:
+                    out["bad"].append(("%%%s vs its expansion on DWARF values:%s" % (dch, w or "diagnostics differ"), dict(file=os.path.basename(path), a=a, b=b,
+                                                                                                                      na=len(ra["res"]), nb=len(rb["res"]), ea=ra["stderr"][:120], eb=rb["stderr"][:120])))
+            except common.DriverCrash as ex2:
+                out["bad"].append(("crash:" + getattr(ex2, "key", ex2.kind), dict(a=a, report=ex2.report[-2500:])))
+    return out
+
+
 def run(chk):
     quick = chk.tier == "quick"
     pool = common.Pool()
@@ -217,7 +264,11 @@ def run(chk):
     n = 6000 if quick else 150000
     per = 100
     zcheck.consume(chk, pool.map(job, [(chk.seed * 1299709 + i, per) for i in range(n // per)]), tot, ctx, samples, "C15")
-    zcheck.consume(chk, pool.map(job_raw, [0]), tot, ctx, samples, "C15 raw")
+    tdir = os.path.join(common.REPO, "tests")
+    dfiles = [os.path.join(tdir, f) for f in (["typedef.o", "enum.o", "nontrivial-types.o"] if quick else ["typedef.o", "enum.o", "nontrivial-types.o", "bitcount.o", "char_16_32.o", "dwz-partial", "a1.out"])
+              if os.path.exists(os.path.join(tdir, f))]
+    zcheck.consume(chk, pool.map(job_dir_dwarf, dfiles), tot, ctx, samples, "C15 directives on DWARF values")
+    zcheck.consume(chk, pool.map(job_raw, [chk.seed * 41 + i for i in range(4 if quick else 64)]), tot, ctx, samples, "C15 raw")
     pool.finish()
     chk.cov.update({
         "evaluations": tot.get("variants", 0) + tot.get("raw", 0),
@@ -225,7 +276,7 @@ def run(chk):
         "rule": "one evaluation = one (program, rewritten variant) pair compared; programs are seeded random typed ASTs; non-trivial = original program yields at least one result",
         "programs": tot.get("n", 0),
         "variants_by_rewrite": {k[5:]: v for k, v in sorted(tot.items()) if k.startswith("kind_")},
-        "raw_string_cases": tot.get("raw", 0),
+        "raw_string_cases": tot.get("raw", 0), "directive_vs_expansion_on_DWARF_values": tot.get("dir_dwarf", 0),
         "samples": samples[:5],
     })
     chk.assumptions += ["comments are inserted whitespace-delimited, as the statement says; comment bodies contain no '*', '/', quotes or brackets",
